@@ -1,0 +1,518 @@
+//go:build verif
+
+package verify
+
+// Contracts for /verif (govc).  No code here.
+
+// ---------------------------------------------------------------------------
+// TCB evaluation (C04, C07): Intel's first-match rule, written from the
+// property statement.
+
+//@ func applyMask(a, b) (r)
+//@   requires len(b) >= len(a)
+//@   ensures[len] len(r) == len(a) && r != nil
+//@   ensures[and] forall i :: 0 <= i && i < len(a) ==> r[i] == a[i] & b[i]
+//@   fresh r
+//@   loop 0: invariant 0 <= i && i <= len(a) && len(data) == len(a)
+//@   loop 0: invariant forall j :: 0 <= j && j < i ==> data[j] == a[j] & b[j]
+
+// SGX components of the platform (from the PCK certificate) against a level
+//@ opaque define cpuGE(p, comps) = len(p) == len(comps) && (forall i :: 0 <= i && i < len(p) ==> p[i] >= comps[i].Svn)
+
+// TDX components: from index 2 when TEE_TCB_SVN[1] is non-zero, else from 0
+//@ opaque define tdxGE(t, comps) = len(t) == len(comps) && (forall i :: 0 <= i && i < len(t) && (t[1] == 0 || i >= 2) ==> t[i] >= comps[i].Svn)
+
+//@ opaque define lvlMatch(L, tee, pce, cpu) = cpuGE(cpu, L.Tcb.SgxTcbcomponents) && pce >= L.Tcb.Pcesvn && tdxGE(tee, L.Tcb.TdxTcbcomponents)
+
+//@ func isCPUSvnHigherOrEqual(pckCertCPUSvnComponents, sgxTcbcomponents) (r)
+//@   reveal cpuGE
+//@   ensures[iff] r <==> cpuGE(pckCertCPUSvnComponents, sgxTcbcomponents)
+//@   loop 0: invariant forall j :: 0 <= j && j <= rangeindex ==> pckCertCPUSvnComponents[j] >= sgxTcbcomponents[j].Svn
+
+//@ func isTdxTcbSvnHigherOrEqual(teeTcbSvn, tdxTcbcomponents) (r)
+//@   requires len(teeTcbSvn) == 16
+//@   reveal tdxGE
+//@   ensures[iff] r <==> tdxGE(teeTcbSvn, tdxTcbcomponents)
+//@   loop 0: invariant start <= i && (start == 0 || start == 2) && (start == 2 <==> teeTcbSvn[1] > 0)
+//@   loop 0: invariant forall j :: start <= j && j < i ==> teeTcbSvn[j] >= tdxTcbcomponents[j].Svn
+
+//@ func getMatchingTcbLevel(tcbLevels, tdReport, pckCertPceSvn, pckCertCPUSvnComponents) (r, err)
+//@   requires tdReport != nil && len(tdReport.TeeTcbSvn) == 16
+//@   reveal lvlMatch
+//@   ensures[first-match] err == nil ==> (exists k :: 0 <= k && k < len(tcbLevels)
+//@ |       && lvlMatch(tcbLevels[k], tdReport.TeeTcbSvn, pckCertPceSvn, pckCertCPUSvnComponents)
+//@ |       && (forall j :: 0 <= j && j < k ==> !lvlMatch(tcbLevels[j], tdReport.TeeTcbSvn, pckCertPceSvn, pckCertCPUSvnComponents))
+//@ |       && r == tcbLevels[k])
+//@   ensures[no-match] err != nil ==> (forall j :: 0 <= j && j < len(tcbLevels) ==> !lvlMatch(tcbLevels[j], tdReport.TeeTcbSvn, pckCertPceSvn, pckCertCPUSvnComponents))
+//@   loop 0: invariant forall j :: 0 <= j && j <= rangeindex ==> !lvlMatch(tcbLevels[j], tdReport.TeeTcbSvn, pckCertPceSvn, pckCertCPUSvnComponents)
+
+// ---- QE TCB level: first level whose isvsvn is not above the report's ----
+
+//@ func readQeTcbStatus(tcbLevels, isvsvn) (r, err)
+//@   ensures[first-match] err == nil ==> (exists k :: 0 <= k && k < len(tcbLevels) && tcbLevels[k].Tcb.Isvsvn <= isvsvn
+//@ |       && (forall j :: 0 <= j && j < k ==> tcbLevels[j].Tcb.Isvsvn > isvsvn) && r == tcbLevels[k])
+//@   ensures[no-match] err != nil ==> (forall j :: 0 <= j && j < len(tcbLevels) ==> tcbLevels[j].Tcb.Isvsvn > isvsvn)
+//@   loop 0: invariant forall j :: 0 <= j && j <= rangeindex ==> tcbLevels[j].Tcb.Isvsvn > isvsvn
+
+//@ define qeUpToDate(levels, isvsvn) = exists k :: 0 <= k && k < len(levels) && levels[k].Tcb.Isvsvn <= isvsvn
+//@ |       && (forall j :: 0 <= j && j < k ==> levels[j].Tcb.Isvsvn > isvsvn) && levels[k].TcbStatus == "UpToDate"
+
+//@ func checkQeTcbStatus(tcbLevels, isvsvn) (err)
+//@   ensures[iff] err == nil <==> qeUpToDate(tcbLevels, isvsvn)
+
+// ---- TDX module identity level (TEE_TCB_SVN[1] > 0) ----
+
+//@ define modID(svn) = "TDX_" + hexenc(seq(svn)[1:2])
+//@ define modFirst(ids, svn, m) = 0 <= m && m < len(ids) && ids[m].ID == modID(svn) && (forall j :: 0 <= j && j < m ==> ids[j].ID != modID(svn))
+//@ define lvlFirst(levels, v, k) = 0 <= k && k < len(levels) && levels[k].Tcb.Isvsvn <= v && (forall j :: 0 <= j && j < k ==> levels[j].Tcb.Isvsvn > v)
+
+//@ func getMatchingTdxModuleTcbLevel(tcbInfoTdxModuleIdentities, teeTcbSvn) (r, err)
+//@   requires len(teeTcbSvn) == 16
+//@   ensures[iff] err == nil <==> (exists m :: modFirst(tcbInfoTdxModuleIdentities, teeTcbSvn, m)
+//@ |       && (exists k :: lvlFirst(tcbInfoTdxModuleIdentities[m].TcbLevels, uint32(teeTcbSvn[0]), k)))
+//@   ensures[level] err == nil ==> r != nil && (exists m :: modFirst(tcbInfoTdxModuleIdentities, teeTcbSvn, m)
+//@ |       && (exists k :: lvlFirst(tcbInfoTdxModuleIdentities[m].TcbLevels, uint32(teeTcbSvn[0]), k) && *r == tcbInfoTdxModuleIdentities[m].TcbLevels[k]))
+//@   loop 0: invariant forall j :: 0 <= j && j <= rangeindex ==> tcbInfoTdxModuleIdentities[j].ID != modID(teeTcbSvn)
+//@   loop 1: invariant forall j :: 0 <= j && j <= rangeindex ==> tdxModuleIdentity.TcbLevels[j].Tcb.Isvsvn > uint32(teeTcbSvn[0])
+
+// ---- the TCB-info verdict ----
+
+//@ define platFirst(levels, tee, pce, cpu, k) = 0 <= k && k < len(levels) && lvlMatch(levels[k], tee, pce, cpu)
+//@ |       && (forall j :: 0 <= j && j < k ==> !lvlMatch(levels[j], tee, pce, cpu))
+
+//@ opaque define platformUpToDate(info, tee, ext) = exists k :: platFirst(info.TcbLevels, tee, ext.TCB.PCESvn, ext.TCB.CPUSvnComponents, k)
+//@ |       && info.TcbLevels[k].TcbStatus == "UpToDate"
+
+//@ opaque define moduleUpToDate(info, tee) = exists m :: modFirst(info.TdxModuleIdentities, tee, m)
+//@ |       && (exists k :: lvlFirst(info.TdxModuleIdentities[m].TcbLevels, uint32(tee[0]), k) && info.TdxModuleIdentities[m].TcbLevels[k].TcbStatus == "UpToDate")
+
+//@ func readTcbInfoTcbStatus(tcbInfo, tdQuoteBody, pckCertExtensions) (r, err)
+//@   reveal platformUpToDate, moduleUpToDate
+//@   requires tdQuoteBody != nil && len(tdQuoteBody.TeeTcbSvn) == 16 && pckCertExtensions != nil
+//@   ensures[status] err == nil && r.TcbStatus == "UpToDate" ==> platformUpToDate(tcbInfo, tdQuoteBody.TeeTcbSvn, pckCertExtensions)
+//@ |       && (tdQuoteBody.TeeTcbSvn[1] > 0 ==> moduleUpToDate(tcbInfo, tdQuoteBody.TeeTcbSvn))
+//@   ensures[no-platform-level] (forall j :: 0 <= j && j < len(tcbInfo.TcbLevels) ==> !lvlMatch(tcbInfo.TcbLevels[j], tdQuoteBody.TeeTcbSvn, pckCertExtensions.TCB.PCESvn, pckCertExtensions.TCB.CPUSvnComponents)) ==> err != nil
+//@   ensures[complete] platformUpToDate(tcbInfo, tdQuoteBody.TeeTcbSvn, pckCertExtensions)
+//@ |       && (tdQuoteBody.TeeTcbSvn[1] > 0 ==> moduleUpToDate(tcbInfo, tdQuoteBody.TeeTcbSvn)) ==> err == nil && r.TcbStatus == "UpToDate"
+
+//@ func checkTcbInfoTcbStatus(tcbInfo, tdQuoteBody, pckCertExtensions) (err)
+//@   reveal platformUpToDate, moduleUpToDate
+//@   requires tdQuoteBody != nil && len(tdQuoteBody.TeeTcbSvn) == 16 && pckCertExtensions != nil
+//@   ensures[platform] err == nil ==> platformUpToDate(tcbInfo, tdQuoteBody.TeeTcbSvn, pckCertExtensions)
+//@   ensures[module] err == nil && tdQuoteBody.TeeTcbSvn[1] > 0 ==> moduleUpToDate(tcbInfo, tdQuoteBody.TeeTcbSvn)
+//@   ensures[complete] platformUpToDate(tcbInfo, tdQuoteBody.TeeTcbSvn, pckCertExtensions)
+//@ |       && (tdQuoteBody.TeeTcbSvn[1] > 0 ==> moduleUpToDate(tcbInfo, tdQuoteBody.TeeTcbSvn)) ==> err == nil
+
+//@ opaque define tdBodyOK(body, info, ext) = eqfold(ext.FMSPC, info.Fmspc) && ext.PCEID == info.PceID
+//@ |       && seq(info.TdxModule.Mrsigner.Bytes) == seq(body.MrSignerSeam)
+//@ |       && len(info.TdxModule.AttributesMask.Bytes) == len(body.SeamAttributes)
+//@ |       && len(info.TdxModule.Attributes.Bytes) == len(body.SeamAttributes)
+//@ |       && (forall i :: 0 <= i && i < len(body.SeamAttributes) ==> info.TdxModule.AttributesMask.Bytes[i] & body.SeamAttributes[i] == info.TdxModule.Attributes.Bytes[i])
+
+//@ func verifyTdQuoteBody(tdQuoteBody, tdQuoteBodyOptions) (err)
+//@   reveal tdBodyOK
+//@   requires tdQuoteBody != nil && len(tdQuoteBody.TeeTcbSvn) == 16 && tdQuoteBodyOptions != nil && tdQuoteBodyOptions.pckCertExtensions != nil
+//@   ensures[identity] err == nil ==> tdBodyOK(tdQuoteBody, tdQuoteBodyOptions.tcbInfo, tdQuoteBodyOptions.pckCertExtensions)
+//@   ensures[platform] err == nil ==> platformUpToDate(tdQuoteBodyOptions.tcbInfo, tdQuoteBody.TeeTcbSvn, tdQuoteBodyOptions.pckCertExtensions)
+//@   ensures[module] err == nil && tdQuoteBody.TeeTcbSvn[1] > 0 ==> moduleUpToDate(tdQuoteBodyOptions.tcbInfo, tdQuoteBody.TeeTcbSvn)
+//@   ensures[complete] tdBodyOK(tdQuoteBody, tdQuoteBodyOptions.tcbInfo, tdQuoteBodyOptions.pckCertExtensions)
+//@ |       && platformUpToDate(tdQuoteBodyOptions.tcbInfo, tdQuoteBody.TeeTcbSvn, tdQuoteBodyOptions.pckCertExtensions)
+//@ |       && (tdQuoteBody.TeeTcbSvn[1] > 0 ==> moduleUpToDate(tdQuoteBodyOptions.tcbInfo, tdQuoteBody.TeeTcbSvn)) ==> err == nil
+
+// ---- QE report against the QE identity (C07) ----
+
+//@ opaque define qeIdentityOK(rep, id) = len(id.MiscselectMask.Bytes) == 4 && len(id.Miscselect.Bytes) == 4
+//@ |       && (rep.MiscSelect & rd32(seq(id.MiscselectMask.Bytes), 0)) == rd32(seq(id.Miscselect.Bytes), 0)
+//@ |       && len(id.AttributesMask.Bytes) == len(rep.Attributes) && len(id.Attributes.Bytes) == len(rep.Attributes)
+//@ |       && (forall i :: 0 <= i && i < len(rep.Attributes) ==> id.AttributesMask.Bytes[i] & rep.Attributes[i] == id.Attributes.Bytes[i])
+//@ |       && seq(id.Mrsigner.Bytes) == seq(rep.MrSigner) && rep.IsvProdId == uint32(id.IsvProdID)
+//@ |       && qeUpToDate(id.TcbLevels, rep.IsvSvn)
+
+//@ func verifyQeReport(qeReport, qeReportOptions) (err)
+//@   reveal qeIdentityOK
+//@   requires qeReport != nil && qeReportOptions != nil && qeReportOptions.qeIdentity != nil
+//@   ensures[iff] err == nil <==> qeIdentityOK(qeReport, *qeReportOptions.qeIdentity)
+
+
+// ---------------------------------------------------------------------------
+// package invariant: the embedded Intel root parsed by init()
+//@ invariant trustedRootCertificate != nil && certObjWF(trustedRootCertificate)
+
+//@ errkind "*trust.AttestationRecreationErr"
+//@ errkind "verify.CRLUnavailableErr"
+
+//@ uf SHA256(ByteSeq) ByteSeq[32]
+
+// ---------------------------------------------------------------------------
+// C01: the signature chain
+
+//@ define attKey(q) = q.SignedData.EcdsaAttestationKey
+//@ define qerc(q) = q.SignedData.CertificationData.QeReportCertificationData
+//@ define derOf(sig) = derSig(seq(sig)[0:32], seq(sig)[32:64])
+
+// REPORT_DATA of the QE report binds the attestation key and the QE auth data
+//@ opaque define bindOK(q) = seq(qerc(q).QeReport.ReportData) == cat(SHA256(cat(seq(attKey(q)), seq(qerc(q).QeAuthData.Data))), zeros(32))
+
+// header || body signed by the attestation key carried in the quote
+//@ opaque define quoteSigOK(q) = onCurve(256, bigOf(seq(attKey(q))[0:32]), bigOf(seq(attKey(q))[32:64]))
+//@ |     && ecdsaOK(256, bigOf(seq(attKey(q))[0:32]), bigOf(seq(attKey(q))[32:64]),
+//@ |               SHA256(cat(hdrBytes(q.Header), bodyBytes(q.TdQuoteBody))), derOf(q.SignedData.Signature))
+
+// QE report signed by the PCK leaf certificate
+//@ opaque define qercSigOK(d, leaf) = certSigOK(addr(leaf), 10, qerBytes(d.QeReport), derOf(d.QeReportSignature))
+//@ define qeSigOK(q, leaf) = qercSigOK(qerc(q), leaf)
+
+//@ func bytesToEcdsaPubKey(b) (r, err)
+//@   ensures[iff] err == nil <==> len(b) == 64 && onCurve(256, bigOf(seq(b)[0:32]), bigOf(seq(b)[32:64]))
+//@   ensures[key] err == nil ==> r != nil && r.X != nil && r.Y != nil && *r.X == bigOf(seq(b)[0:32]) && *r.Y == bigOf(seq(b)[32:64]) && addr(r.Curve) == 256
+
+//@ func verifyHash256(quote) (err)
+//@   reveal bindOK
+//@   requires quoteOK(quote)
+//@   ensures[iff] err == nil <==> bindOK(quote)
+
+//@ func getHeaderAndTdQuoteBodyInAbiBytes(quote) (r, err)
+//@   requires quoteOK(quote)
+//@   ensures[total] err == nil
+//@   ensures[layout] seq(r) == cat(hdrBytes(quote.Header), bodyBytes(quote.TdQuoteBody))
+
+//@ func tdxQeReportSignature(qeReport, signature, pckCert) (err)
+//@   requires pckCert != nil
+//@   ensures[iff] err == nil <==> len(signature) == 64 && certSigOK(addr(pckCert), 10, seq(qeReport), derOf(signature))
+
+//@ func tdxProtoQeReportSignature(qeReportCertificationData, pckCert) (err)
+//@   requires pckCert != nil && qercOK(qeReportCertificationData)
+//@   reveal qercSigOK
+//@   ensures[iff] err == nil <==> qercSigOK(qeReportCertificationData, pckCert)
+
+//@ define collateralChecksOK(q, o) = tdBodyOK(q.TdQuoteBody, o.collateral.TdxTcbInfo.TcbInfo, o.pckCertExtensions)
+//@ |     && platformUpToDate(o.collateral.TdxTcbInfo.TcbInfo, q.TdQuoteBody.TeeTcbSvn, o.pckCertExtensions)
+//@ |     && (q.TdQuoteBody.TeeTcbSvn[1] > 0 ==> moduleUpToDate(o.collateral.TdxTcbInfo.TcbInfo, q.TdQuoteBody.TeeTcbSvn))
+//@ |     && qeIdentityOK(qerc(q).QeReport, o.collateral.QeIdentity.EnclaveIdentity)
+
+//@ func verifyQuote(quote, options) (err)
+//@   reveal quoteSigOK
+//@   requires quoteOK(quote) && options != nil && options.chain != nil && options.chain.PCKCertificate != nil
+//@   requires options.collateral != nil ==> options.pckCertExtensions != nil
+//@   ensures[sig] err == nil ==> quoteSigOK(quote)
+//@   ensures[qesig] err == nil ==> qeSigOK(quote, options.chain.PCKCertificate)
+//@   ensures[bind] err == nil ==> bindOK(quote)
+//@   ensures[collateral] err == nil && options.collateral != nil ==> collateralChecksOK(quote, options)
+//@   ensures[complete] quoteSigOK(quote) && qeSigOK(quote, options.chain.PCKCertificate) && bindOK(quote)
+//@ |     && (options.collateral != nil ==> collateralChecksOK(quote, options)) ==> err == nil
+
+// ---------------------------------------------------------------------------
+// C02 / C05 / C06: the PCK certificate chain
+
+//@ define certShapeOK(c, phrase) = c.Version == 3 && c.SignatureAlgorithm == 10 && c.PublicKeyAlgorithm == 3
+//@ |     && typeis(c.PublicKey, "*ecdsa.PublicKey") && curveNameOf(addr(as(c.PublicKey, "*ecdsa.PublicKey").Curve)) == "P-256"
+//@ |     && c.Subject.CommonName == phrase
+
+//@ opaque define certRoleOK(c, parent, phrase) = c != nil && parent != nil && certShapeOK(c, phrase)
+//@ |     && pkixNameString(c.Issuer) == pkixNameString(parent.Subject) && issuedBy(addr(c), addr(parent))
+
+//@ opaque define crlOK(crl, ca) = crl != nil && ca != nil && pkixNameString(crl.Issuer) == pkixNameString(ca.Subject) && crlSignedBy(addr(crl), addr(ca))
+
+//@ opaque define notRevoked(crl, c) = forall k :: 0 <= k && k < len(crl.RevokedCertificates) ==> *crl.RevokedCertificates[k].SerialNumber != *c.SerialNumber
+
+//@ func validateX509Cert(cert, version, signatureAlgorithm, publicKeyAlgorithm, curve) (err)
+//@   requires certObjWF(cert)
+//@   ensures[iff] err == nil <==> cert.Version == version && cert.SignatureAlgorithm == signatureAlgorithm && cert.PublicKeyAlgorithm == publicKeyAlgorithm
+//@ |     && typeis(cert.PublicKey, "*ecdsa.PublicKey") && curveNameOf(addr(as(cert.PublicKey, "*ecdsa.PublicKey").Curve)) == curve
+
+//@ func validateCertificate(cert, parent, phrase) (err)
+//@   reveal certRoleOK
+//@   requires cert != nil ==> certObjWF(cert)
+//@   ensures[iff] err == nil <==> certRoleOK(cert, parent, phrase)
+
+//@ func validateCRL(crl, trustedCertificate) (err)
+//@   reveal crlOK
+//@   ensures[iff] err == nil <==> crlOK(crl, trustedCertificate)
+
+// the trust anchors actually used: the caller's pool, else the embedded Intel root
+//@ define effRoots(o) = ite(o.TrustedRoots != nil, *o.TrustedRoots, poolAdd(poolEmpty(), addr(trustedRootCertificate)))
+
+//@ func x509Options(trustedRoots, intermediateCert, now) (r)
+//@   ensures[time] r.CurrentTime == now
+//@   ensures[roots] r.Roots != nil && *r.Roots == ite(trustedRoots != nil, old(*trustedRoots), poolAdd(poolEmpty(), addr(trustedRootCertificate)))
+//@   ensures[inter] r.Intermediates != nil && *r.Intermediates == ite(intermediateCert != nil, poolAdd(poolEmpty(), addr(intermediateCert)), poolEmpty())
+//@   ensures[unchanged] trustedRoots != nil ==> *trustedRoots == old(*trustedRoots)
+
+//@ opaque define chainNotExpired(ch, o) = !(o.Now.PckCertChain > ch.RootCertificate.NotAfter) && !(o.Now.PckCertChain > ch.IntermediateCertificate.NotAfter)
+//@ |     && !(o.Now.PckCertChain > ch.PCKCertificate.NotAfter)
+
+//@ func checkCertificateExpiration(chain, options) (err)
+//@   reveal chainNotExpired
+//@   requires chain != nil && chain.RootCertificate != nil && chain.IntermediateCertificate != nil && chain.PCKCertificate != nil && options != nil && options.Now != nil
+//@   ensures[iff] err == nil <==> chainNotExpired(chain, options)
+
+//@ define chainRolesOK(ch) = certRoleOK(ch.RootCertificate, ch.RootCertificate, "Intel SGX Root CA")
+//@ |     && certRoleOK(ch.IntermediateCertificate, ch.RootCertificate, "Intel SGX PCK Platform CA")
+//@ |     && certRoleOK(ch.PCKCertificate, ch.IntermediateCertificate, "Intel SGX PCK Certificate")
+
+//@ define chainAnchored(ch, o) = x509Valid(addr(ch.PCKCertificate), effRoots(o), poolAdd(poolEmpty(), addr(ch.IntermediateCertificate)), o.Now.PckCertChain)
+
+//@ define chainRevocationOK(ch, coll) = crlOK(coll.RootCaCrl, ch.RootCertificate) && crlOK(coll.PckCrl, ch.IntermediateCertificate)
+//@ |     && pkixNameString(coll.PckCrl.Issuer) == pkixNameString(ch.PCKCertificate.Issuer)
+//@ |     && notRevoked(coll.RootCaCrl, ch.IntermediateCertificate) && notRevoked(coll.PckCrl, ch.PCKCertificate)
+
+//@ opaque define pckChainOK(o) = chainRolesOK(o.chain) && chainAnchored(o.chain, o) && chainNotExpired(o.chain, o)
+//@ |     && (o.CheckRevocations ==> o.GetCollateral && chainRevocationOK(o.chain, o.collateral))
+
+//@ define chainWFin(ch) = ch != nil && (ch.RootCertificate != nil ==> certObjWF(ch.RootCertificate))
+//@ |     && (ch.IntermediateCertificate != nil ==> certObjWF(ch.IntermediateCertificate)) && (ch.PCKCertificate != nil ==> certObjWF(ch.PCKCertificate))
+//@ define collWFin(coll) = (coll.RootCaCrl != nil ==> crlObjWF(coll.RootCaCrl)) && (coll.PckCrl != nil ==> crlObjWF(coll.PckCrl))
+//@ |     && (coll.TcbInfoIssuerRootCertificate != nil ==> certObjWF(coll.TcbInfoIssuerRootCertificate))
+//@ |     && (coll.TcbInfoIssuerIntermediateCertificate != nil ==> certObjWF(coll.TcbInfoIssuerIntermediateCertificate))
+//@ |     && (coll.QeIdentityIssuerRootCertificate != nil ==> certObjWF(coll.QeIdentityIssuerRootCertificate))
+//@ |     && (coll.QeIdentityIssuerIntermediateCertificate != nil ==> certObjWF(coll.QeIdentityIssuerIntermediateCertificate))
+//@ |     && (coll.PckCrlIssuerRootCertificate != nil ==> certObjWF(coll.PckCrlIssuerRootCertificate))
+//@ |     && (coll.PckCrlIssuerIntermediateCertificate != nil ==> certObjWF(coll.PckCrlIssuerIntermediateCertificate))
+
+//@ func verifyPCKCertificationChain(options) (err)
+//@   reveal pckChainOK, notRevoked, crlOK
+//@   requires options != nil && options.Now != nil && chainWFin(options.chain)
+//@   requires options.CheckRevocations && options.GetCollateral ==> options.collateral != nil && collWFin(options.collateral)
+//@   ensures[accept] err == nil ==> pckChainOK(options)
+//@   ensures[conflict] options.CheckRevocations && !options.GetCollateral ==> err != nil
+//@   ensures[complete] options.chain.RootCertificate != nil && options.chain.IntermediateCertificate != nil && options.chain.PCKCertificate != nil
+//@ |     && pckChainOK(options) ==> err == nil
+//@   loop 0: invariant forall j :: 0 <= j && j <= rangeindex ==> *collateral.RootCaCrl.RevokedCertificates[j].SerialNumber != *intermediateCert.SerialNumber
+//@   loop 1: invariant forall j :: 0 <= j && j <= rangeindex ==> *collateral.PckCrl.RevokedCertificates[j].SerialNumber != *pckCert.SerialNumber
+
+// the three PEM blocks of the chain carried in the quote
+//@ opaque define chainBlocks(ch, cb) = pemOK(cb) && pemType(cb) == "CERTIFICATE" && certParses(pemBytes(cb)) && addr(ch.PCKCertificate) == parseCert(pemBytes(cb))
+//@ |     && pemOK(pemRest(cb)) && pemType(pemRest(cb)) == "CERTIFICATE" && certParses(pemBytes(pemRest(cb)))
+//@ |     && addr(ch.IntermediateCertificate) == parseCert(pemBytes(pemRest(cb)))
+//@ |     && pemOK(pemRest(pemRest(cb))) && pemType(pemRest(pemRest(cb))) == "CERTIFICATE" && certParses(pemBytes(pemRest(pemRest(cb))))
+//@ |     && addr(ch.RootCertificate) == parseCert(pemBytes(pemRest(pemRest(cb))))
+//@ |     && len(pemRest(cb)) > 0 && len(pemRest(pemRest(cb))) > 0
+//@ |     && (len(pemRest(pemRest(pemRest(cb)))) == 0 || (len(pemRest(pemRest(pemRest(cb)))) == 1 && pemRest(pemRest(pemRest(cb)))[0] == 0))
+
+//@ define pckChainBytes(q) = seq(qerc(q).PckCertificateChainData.PckCertChain)
+
+//@ func extractChainFromQuoteV4(quote) (r, err)
+//@   reveal chainBlocks
+//@   ensures[blocks] quoteOK(quote) && err == nil ==> r != nil && chainBlocks(r, pckChainBytes(quote))
+//@   ensures[wf] err == nil ==> r != nil && certObjWF(r.PCKCertificate) && certObjWF(r.IntermediateCertificate) && certObjWF(r.RootCertificate)
+//@   ensures[complete] quoteOK(quote) && qerc(quote).PckCertificateChainData.PckCertChain != nil && pemOK(pckChainBytes(quote)) && pemType(pckChainBytes(quote)) == "CERTIFICATE"
+//@ |     && certParses(pemBytes(pckChainBytes(quote))) && len(pemRest(pckChainBytes(quote))) > 0
+//@ |     && pemOK(pemRest(pckChainBytes(quote))) && pemType(pemRest(pckChainBytes(quote))) == "CERTIFICATE" && certParses(pemBytes(pemRest(pckChainBytes(quote))))
+//@ |     && len(pemRest(pemRest(pckChainBytes(quote)))) > 0
+//@ |     && pemOK(pemRest(pemRest(pckChainBytes(quote)))) && pemType(pemRest(pemRest(pckChainBytes(quote)))) == "CERTIFICATE"
+//@ |     && certParses(pemBytes(pemRest(pemRest(pckChainBytes(quote)))))
+//@ |     && (len(pemRest(pemRest(pemRest(pckChainBytes(quote))))) == 0 || (len(pemRest(pemRest(pemRest(pckChainBytes(quote))))) == 1 && pemRest(pemRest(pemRest(pckChainBytes(quote))))[0] == 0))
+//@ |     ==> err == nil
+
+//@ func ExtractChainFromQuote(quote) (r, err)
+//@   ensures[wf] err == nil ==> r != nil && certObjWF(r.PCKCertificate) && certObjWF(r.IntermediateCertificate) && certObjWF(r.RootCertificate)
+
+//@ func extractCaFromPckCert(pckCert) (ca, err)
+//@   requires pckCert != nil
+//@   ensures[platform] pckCert.Issuer.CommonName == "Intel SGX PCK Platform CA" ==> err == nil && ca == "platform"
+//@   ensures[processor] pckCert.Issuer.CommonName == "Intel SGX PCK Processor CA" ==> err == nil && ca == "processor"
+//@   ensures[other] pckCert.Issuer.CommonName != "Intel SGX PCK Platform CA" && pckCert.Issuer.CommonName != "Intel SGX PCK Processor CA" ==> err != nil
+
+// ---------------------------------------------------------------------------
+// C03 / C05 / C06: collateral responses
+
+//@ opaque define responseOK(phrase, root, signer, body, sig, crl, o, t) = certRoleOK(root, root, "Intel SGX Root CA") && certRoleOK(signer, root, phrase)
+//@ |     && x509Valid(addr(signer), effRoots(o), poolEmpty(), t)
+//@ |     && hexOK(sig) && len(hexDecode(sig)) == 64 && certSigOK(addr(signer), 10, seq(body), derSig(hexDecode(sig)[0:32], hexDecode(sig)[32:64]))
+//@ |     && (o.CheckRevocations ==> o.GetCollateral && crlOK(crl, root) && notRevoked(crl, signer))
+
+//@ func verifyResponse(signingPhrase, rootCertificate, signingCertificate, rawBody, rawSignature, crl, options, now) (err)
+//@   reveal responseOK, notRevoked, crlOK, certRoleOK
+//@   requires options != nil && (rootCertificate != nil ==> certObjWF(rootCertificate)) && (signingCertificate != nil ==> certObjWF(signingCertificate)) && (crl != nil ==> crlObjWF(crl))
+//@   ensures[accept] err == nil ==> responseOK(signingPhrase, rootCertificate, signingCertificate, rawBody, rawSignature, crl, options, now)
+//@   ensures[conflict] options.CheckRevocations && !options.GetCollateral ==> err != nil
+//@   ensures[complete] responseOK(signingPhrase, rootCertificate, signingCertificate, rawBody, rawSignature, crl, options, now) ==> err == nil
+//@   loop 0: invariant forall j :: 0 <= j && j <= rangeindex ==> *crl.RevokedCertificates[j].SerialNumber != *signingCertificate.SerialNumber
+
+//@ opaque define tcbInfoOK(o) = o.collateral.TdxTcbInfo.TcbInfo.ID == "TDX" && o.collateral.TdxTcbInfo.TcbInfo.Version == 3 && len(o.collateral.TdxTcbInfo.TcbInfo.TcbLevels) > 0
+//@ |     && responseOK("Intel SGX TCB Signing", o.collateral.TcbInfoIssuerRootCertificate, o.collateral.TcbInfoIssuerIntermediateCertificate,
+//@ |          o.collateral.TcbInfoBody, o.collateral.TdxTcbInfo.Signature, o.collateral.RootCaCrl, o, o.Now.TcbInfo)
+
+//@ opaque define qeIdentityDocOK(o) = o.collateral.QeIdentity.EnclaveIdentity.ID == "TD_QE" && o.collateral.QeIdentity.EnclaveIdentity.Version == 2
+//@ |     && len(o.collateral.QeIdentity.EnclaveIdentity.TcbLevels) > 0
+//@ |     && responseOK("Intel SGX TCB Signing", o.collateral.QeIdentityIssuerRootCertificate, o.collateral.QeIdentityIssuerIntermediateCertificate,
+//@ |          o.collateral.EnclaveIdentityBody, o.collateral.QeIdentity.Signature, o.collateral.RootCaCrl, o, o.Now.QeIdentity)
+
+//@ func verifyTCBinfo(options) (err)
+//@   reveal tcbInfoOK
+//@   requires options != nil && options.Now != nil && options.collateral != nil && collWFin(options.collateral)
+//@   ensures[accept] err == nil ==> tcbInfoOK(options)
+//@   ensures[complete] tcbInfoOK(options) ==> err == nil
+
+//@ func verifyQeIdentity(options) (err)
+//@   reveal qeIdentityDocOK
+//@   requires options != nil && options.Now != nil && options.collateral != nil && collWFin(options.collateral)
+//@   ensures[accept] err == nil ==> qeIdentityDocOK(options)
+//@   ensures[complete] qeIdentityDocOK(options) ==> err == nil
+
+//@ define collateralPresent(coll, o) = coll != nil && coll.TcbInfoBody != nil && coll.EnclaveIdentityBody != nil
+//@ |     && coll.TcbInfoIssuerIntermediateCertificate != nil && coll.TcbInfoIssuerRootCertificate != nil
+//@ |     && coll.QeIdentityIssuerIntermediateCertificate != nil && coll.QeIdentityIssuerRootCertificate != nil
+//@ |     && (o.CheckRevocations ==> coll.PckCrl != nil && coll.RootCaCrl != nil && coll.PckCrlIssuerIntermediateCertificate != nil && coll.PckCrlIssuerRootCertificate != nil)
+
+// every artifact judged at its own entry of the time set (C06)
+//@ opaque define collateralNotExpired(coll, o) = !(o.Now.TcbInfo > coll.TdxTcbInfo.TcbInfo.NextUpdate) && !(o.Now.QeIdentity > coll.QeIdentity.EnclaveIdentity.NextUpdate)
+//@ |     && !(o.Now.TcbInfo > coll.TcbInfoIssuerIntermediateCertificate.NotAfter) && !(o.Now.TcbInfo > coll.TcbInfoIssuerRootCertificate.NotAfter)
+//@ |     && !(o.Now.QeIdentity > coll.QeIdentityIssuerRootCertificate.NotAfter) && !(o.Now.QeIdentity > coll.QeIdentityIssuerIntermediateCertificate.NotAfter)
+//@ |     && (o.CheckRevocations ==> !(o.Now.RootCaCrl > coll.RootCaCrl.NextUpdate) && !(o.Now.PckCrl > coll.PckCrl.NextUpdate)
+//@ |          && !(o.Now.PckCrl > coll.PckCrlIssuerIntermediateCertificate.NotAfter) && !(o.Now.PckCrl > coll.PckCrlIssuerRootCertificate.NotAfter))
+
+//@ func checkCollateralExpiration(collateral, options) (err)
+//@   reveal collateralNotExpired
+//@   requires options != nil && options.Now != nil && collateralPresent(collateral, options)
+//@   ensures[iff] err == nil <==> collateralNotExpired(collateral, options)
+
+//@ func verifyCollateral(options) (err)
+//@   requires options != nil && options.Now != nil
+//@   ensures[accept] err == nil ==> collateralPresent(options.collateral, options) && collateralNotExpired(options.collateral, options)
+
+//@ define collateralOK(o) = collateralPresent(o.collateral, o) && collateralNotExpired(o.collateral, o) && tcbInfoOK(o) && qeIdentityDocOK(o)
+
+// ---------------------------------------------------------------------------
+// the evidence verdict: options gate the checks exactly (C12)
+
+//@ define evidenceOK(q, o) = q.Header.TeeType == 0x81 && pckChainOK(o) && (o.GetCollateral ==> collateralOK(o))
+//@ |     && quoteSigOK(q) && qeSigOK(q, o.chain.PCKCertificate) && bindOK(q) && (o.collateral != nil ==> collateralChecksOK(q, o))
+
+//@ func verifyEvidenceV4(quote, options) (err)
+//@   requires quoteOK(quote) && options != nil && options.Now != nil && chainWFin(options.chain) && options.chain.PCKCertificate != nil
+//@   requires options.GetCollateral ==> options.collateral != nil && collWFin(options.collateral)
+//@   requires options.collateral != nil ==> options.pckCertExtensions != nil
+//@   ensures[accept] err == nil ==> evidenceOK(quote, options)
+
+//@ func verifyEvidence(quote, options) (err)
+//@   inline
+
+// ---------------------------------------------------------------------------
+// fetching collateral (C03 provenance, C12 fetch discipline, C19 typed errors)
+
+//@ func headerToIssuerChain(header, phrase) (inter, root, err)
+//@   ensures[certs] err == nil ==> certObjWF(inter) && certObjWF(root)
+//@   ensures[chain] err == nil ==> maphas(header, phrase) && len(mapget(header, phrase)) == 1 && unescapeOK(mapget(header, phrase)[0])
+//@ |     && issuerBlocks(inter, root, strbytes(unescape(mapget(header, phrase)[0])))
+
+//@ opaque define issuerBlocks(inter, root, cb) = pemOK(cb) && pemType(cb) == "CERTIFICATE" && certParses(pemBytes(cb)) && addr(inter) == parseCert(pemBytes(cb))
+//@ |     && len(pemRest(cb)) > 0 && pemOK(pemRest(cb)) && pemType(pemRest(cb)) == "CERTIFICATE" && certParses(pemBytes(pemRest(cb)))
+//@ |     && addr(root) == parseCert(pemBytes(pemRest(cb))) && len(pemRest(pemRest(cb))) == 0
+
+//@ func bodyToCrl(body) (crl, err)
+//@   ensures[iff] err == nil <==> crlParses(seq(body))
+//@   ensures[crl] err == nil ==> crl != nil && addr(crl) == parseCRL(seq(body)) && crlObjWF(crl)
+//@   ensures[nil] err != nil ==> crl == nil
+
+//@ func bodyToRawMessage(name, body) (r, err)
+//@   ensures[member] err == nil ==> len(body) > 0 && jsonhas(seq(body), name) && r == jsonmember(seq(body), name)
+
+//@ func getTcbInfo(fmspc, getter, collateral) (err)
+//@   emits get 1
+//@   requires getter != nil && collateral != nil
+//@   assigns collateral.TcbInfoIssuerIntermediateCertificate, collateral.TcbInfoIssuerRootCertificate, collateral.TdxTcbInfo, collateral.TcbInfoBody
+//@   ensures[one-fetch] get[0].happened && !get[1].happened && before(get[0], url) == call("pcs.TcbInfoURL", fmspc)
+//@   ensures[certs] err == nil ==> certObjWF(collateral.TcbInfoIssuerIntermediateCertificate) && certObjWF(collateral.TcbInfoIssuerRootCertificate)
+//@   ensures[signed-member] err == nil ==> collateral.TcbInfoBody == jsonmember(after(get[0], seq(body)), "tcbInfo")
+//@   ensures[provenance] err == nil ==> collateral.TdxTcbInfo.TcbInfo == jsondecode("pcs.TcbInfo", seq(collateral.TcbInfoBody))
+//@   ensures[typed-error] err != nil ==> errhas(err, "*trust.AttestationRecreationErr")
+//@   ensures[fetch-error] after(get[0], err != nil) ==> err != nil
+
+//@ func getQeIdentity(getter, collateral) (err)
+//@   emits get 1
+//@   requires getter != nil && collateral != nil
+//@   assigns collateral.QeIdentityIssuerIntermediateCertificate, collateral.QeIdentityIssuerRootCertificate, collateral.QeIdentity, collateral.EnclaveIdentityBody
+//@   ensures[one-fetch] get[0].happened && !get[1].happened && before(get[0], url) == call("pcs.QeIdentityURL")
+//@   ensures[certs] err == nil ==> certObjWF(collateral.QeIdentityIssuerIntermediateCertificate) && certObjWF(collateral.QeIdentityIssuerRootCertificate)
+//@   ensures[signed-member] err == nil ==> collateral.EnclaveIdentityBody == jsonmember(after(get[0], seq(body)), "enclaveIdentity")
+//@   ensures[provenance] err == nil ==> collateral.QeIdentity.EnclaveIdentity == jsondecode("pcs.EnclaveIdentity", seq(collateral.EnclaveIdentityBody))
+//@   ensures[typed-error] err != nil ==> errhas(err, "*trust.AttestationRecreationErr")
+//@   ensures[fetch-error] after(get[0], err != nil) ==> err != nil
+
+//@ func getPckCrl(ca, getter, collateral) (err)
+//@   emits get 1
+//@   requires getter != nil && collateral != nil
+//@   assigns collateral.PckCrlIssuerIntermediateCertificate, collateral.PckCrlIssuerRootCertificate, collateral.PckCrl
+//@   ensures[one-fetch] get[0].happened && !get[1].happened && before(get[0], url) == call("pcs.PckCrlURL", ca)
+//@   ensures[crl] err == nil ==> collateral.PckCrl != nil && crlObjWF(collateral.PckCrl) && addr(collateral.PckCrl) == parseCRL(after(get[0], seq(body)))
+//@ |     && certObjWF(collateral.PckCrlIssuerIntermediateCertificate) && certObjWF(collateral.PckCrlIssuerRootCertificate)
+//@   ensures[typed-error] after(get[0], err != nil) ==> errhas(err, "verify.CRLUnavailableErr")
+//@   ensures[fetch-error] after(get[0], err != nil) ==> err != nil
+
+//@ func getRootCrl(getter, collateral) (err)
+//@   requires getter != nil && collateral != nil && collateral.QeIdentityIssuerRootCertificate != nil
+//@   assigns collateral.RootCaCrl
+//@   ensures[crl] err == nil ==> collateral.RootCaCrl != nil && crlObjWF(collateral.RootCaCrl)
+//@   ensures[typed-error] err != nil && len(collateral.QeIdentityIssuerRootCertificate.CRLDistributionPoints) > 0 ==> errhas(err, "verify.CRLUnavailableErr")
+//@   ensures[no-url] len(collateral.QeIdentityIssuerRootCertificate.CRLDistributionPoints) == 0 ==> err != nil
+
+//@ func obtainCollateral(fmspc, ca, options) (r, err)
+//@   emits get 3
+//@   requires options != nil
+//@   ensures[urls] get[0].happened && before(get[0], url) == call("pcs.TcbInfoURL", fmspc)
+//@ |     && (get[1].happened ==> before(get[1], url) == call("pcs.QeIdentityURL"))
+//@ |     && (get[2].happened ==> before(get[2], url) == call("pcs.PckCrlURL", ca))
+//@   ensures[crl-only-when-asked] !options.CheckRevocations ==> !get[2].happened
+//@   ensures[present] err == nil ==> r != nil
+//@ |     && certObjWF(r.TcbInfoIssuerIntermediateCertificate) && certObjWF(r.TcbInfoIssuerRootCertificate)
+//@ |     && certObjWF(r.QeIdentityIssuerIntermediateCertificate) && certObjWF(r.QeIdentityIssuerRootCertificate)
+//@ |     && (options.CheckRevocations ==> r.PckCrl != nil && crlObjWF(r.PckCrl) && r.RootCaCrl != nil && crlObjWF(r.RootCaCrl)
+//@ |          && certObjWF(r.PckCrlIssuerIntermediateCertificate) && certObjWF(r.PckCrlIssuerRootCertificate))
+//@   ensures[no-crl-unless-asked] err == nil && !options.CheckRevocations ==> r.PckCrl == nil && r.RootCaCrl == nil
+//@ |     && r.PckCrlIssuerIntermediateCertificate == nil && r.PckCrlIssuerRootCertificate == nil
+//@   ensures[provenance] err == nil ==> r.TdxTcbInfo.TcbInfo == jsondecode("pcs.TcbInfo", seq(r.TcbInfoBody))
+//@ |     && r.TcbInfoBody == jsonmember(after(get[0], seq(body)), "tcbInfo")
+//@ |     && r.QeIdentity.EnclaveIdentity == jsondecode("pcs.EnclaveIdentity", seq(r.EnclaveIdentityBody))
+//@ |     && r.EnclaveIdentityBody == jsonmember(after(get[1], seq(body)), "enclaveIdentity")
+//@   ensures[typed-error-collateral] err != nil && !get[2].happened ==> errhas(err, "*trust.AttestationRecreationErr")
+//@   ensures[typed-error-crl] err != nil && get[2].happened && after(get[2], err != nil) ==> errhas(err, "verify.CRLUnavailableErr")
+//@   fresh r
+
+// ---------------------------------------------------------------------------
+// top level
+
+//@ define verdictOK(q, o) = quoteOK(q) && o.chain != nil && chainBlocks(o.chain, pckChainBytes(q)) && evidenceOK(q, o)
+
+//@ func tdxQuoteV4(quote, options) (err)
+//@   requires options != nil
+//@   assigns options.chain, options.collateral, options.pckCertExtensions, options.Now
+//@   ensures[accept] err == nil ==> verdictOK(quote, options)
+//@   ensures[no-fetch] !options.GetCollateral ==> !get[0].happened
+//@   ensures[crl-fetch-only-when-asked] !options.CheckRevocations ==> !get[2].happened
+//@   ensures[tcb-request-names-fmspc] err == nil && options.GetCollateral ==> get[0].happened && before(get[0], url) == call("pcs.TcbInfoURL", options.pckCertExtensions.FMSPC)
+//@   ensures[exts-of-leaf] err == nil ==> pckext[0].happened && before(pckext[0], cert) == options.chain.PCKCertificate && options.pckCertExtensions == after(pckext[0], r)
+//@   ensures[history] options.Now == old(options.Now)
+//@   ensures[typed-error-collateral] err != nil && get[0].happened && !get[2].happened && options.collateral == nil ==> errhas(err, "*trust.AttestationRecreationErr")
+
+//@ func TdxQuote(quote, options) (err)
+//@   records verify_tdxquote
+//@   assigns options.chain, options.collateral, options.pckCertExtensions, options.Now
+//@   ensures[nil-options] options == nil ==> err != nil
+//@   ensures[type] !typeis(quote, "*tdx.QuoteV4") ==> err != nil
+//@   ensures[accept] err == nil ==> options != nil && typeis(quote, "*tdx.QuoteV4") && verdictOK(as(quote, "*tdx.QuoteV4"), options)
+//@   ensures[no-fetch] options != nil && !options.GetCollateral ==> !get[0].happened
+
+//@ func RawTdxQuote(raw, options) (err)
+//@   assigns options.chain, options.collateral, options.pckCertExtensions, options.Now
+//@   ensures[gate] err == nil ==> quoteWF(seq(raw)) && options != nil
+
+//@ func getTrustedRoots(rot) (r, err)
+//@   requires rot != nil
+//@   ensures[none] len(rot.CabundlePaths) == 0 && len(rot.Cabundles) == 0 ==> r == nil && err == nil
+//@   ensures[fresh-pool] r != nil ==> fresh(r)
+
+//@ func RootOfTrustToOptions(rot) (r, err)
+//@   records rootoftrust
+//@   requires rot != nil
+//@   ensures[flags] err == nil ==> r != nil && r.CheckRevocations == rot.CheckCrl && r.GetCollateral == rot.GetCollateral && r.Now == nil && r.Getter == nil
+//@   ensures[embedded-root-when-unconfigured] err == nil && len(rot.CabundlePaths) == 0 && len(rot.Cabundles) == 0 ==> r.TrustedRoots == nil
+
+//@ func SupportedTcbLevelsFromCollateral(quote, options) (tcb, qe, err)
+//@   requires options != nil ==> options.Now != nil
+//@   requires typeis(quote, "*tdx.QuoteV4") ==> quoteOK(as(quote, "*tdx.QuoteV4"))
+//@   ensures[no-empty-level] err == nil && typeis(quote, "*tdx.QuoteV4") ==>
+//@ |     !(forall j :: 0 <= j && j < len(options.collateral.TdxTcbInfo.TcbInfo.TcbLevels) ==> !lvlMatch(options.collateral.TdxTcbInfo.TcbInfo.TcbLevels[j],
+//@ |          as(quote, "*tdx.QuoteV4").TdQuoteBody.TeeTcbSvn, options.pckCertExtensions.TCB.PCESvn, options.pckCertExtensions.TCB.CPUSvnComponents))
+//@ |     && !(forall j :: 0 <= j && j < len(options.collateral.QeIdentity.EnclaveIdentity.TcbLevels) ==>
+//@ |          options.collateral.QeIdentity.EnclaveIdentity.TcbLevels[j].Tcb.Isvsvn > qerc(as(quote, "*tdx.QuoteV4")).QeReport.IsvSvn)
